@@ -215,6 +215,9 @@ def build():
     u.prelude('codec_specs.rs', 'codec.rs')
     u.const_guard('tonic/src/codec/mod.rs', 'HEADER_SIZE', 'const HEADER_SIZE: usize = std::mem::size_of::<u8>() + std::mem::size_of::<u32>();', 'pub const HEADER_SIZE: usize = 5;')
     u.item('tonic/src/codec/mod.rs', 'const', 'DEFAULT_MAX_RECV_MESSAGE_SIZE')
+    u.raw('''// C06: "4 MiB by default"
+pub proof fn lemma_default_decoding_limit_is_4_mib() ensures DEFAULT_MAX_RECV_MESSAGE_SIZE == 4194304usize {}
+''', props=['C06'])
     u.item('tonic/src/codec/buffer.rs', 'struct', 'DecodeBuf')
     u.raw(SHIMS)
     u.item(D, 'enum', 'State')
